@@ -8,7 +8,7 @@ CONSTANTS
   PVals = {1, 2}
   MVals = {}
   WithDelSpace = FALSE
-  OpenFindings = {"KF:C18.update-merges-specs"}
+  OpenFindings = {}
   MaxOps = 4
   Dump = FALSE
 VIEW View
